@@ -20,7 +20,7 @@ def tiled_header(rnd, var, check_false):
     step_txt, step = rnd.choice([(None, 1), ("1", 1), ("2", 2), ("3", 3), ("1 << 1", 2)])
     k = rnd.randint(1, 3)
     span = tile * k * step                  # trip count = tile * k exactly
-    base = rnd.choice(["0", "1", "n & 1", "m & 3", "2"])
+    base = rnd.choice(["0", "1", "(n & 1)", "(m & 3)", "2"])
     inclusive = rnd.random() < 0.5
     flip = rnd.random() < 0.4
     if down:
@@ -155,7 +155,7 @@ class C18Spec(v_okl.Spec):
         return out
 
     def known_filter(self, k, mode, txt, known_ids):
-        return p_C17.C17Spec.known_filter(self, k, mode, txt, set("empty-range-launch" for x in known_ids if x == "empty-range-launch-tile"))
+        return p_C17.C17Spec.known_filter(self, k, mode, txt, known_ids)
 
 
 REGISTRY["C18"] = lambda prop, tier, replay, t0: v_okl.run_tv(C18Spec(), prop, tier, replay, t0)
